@@ -19,40 +19,40 @@ func bNewBus() *channelBus {
 	}
 }
 
-// VerifH_C20_Bus — conf: subs (1..2), pubs (number of publishes)
+// VerifH_C20_Bus — conf: subs (number of subscribers), pubs (number of publishes), names (event names in play).
+// Every subscriber subscribes at a symbolic position of the publish sequence and unsubscribes at a later
+// one (or never), so subscriptions come and go while others stay.
 func VerifH_C20_Bus() {
-	nsub, npub := vConfInt("subs"), vConfInt("pubs")
+	nsub, npub, nnames := vConfInt("subs"), vConfInt("pubs"), vConfInt("names")
 	b := bNewBus()
 	type subSpec struct {
-		named [3]bool
-		wild  bool
-		sub   Subscription
-		// position (number of publishes already issued) at which it unsubscribes; npub+1 = never
-		unsubAt int
+		named   [3]bool
+		wild    bool
+		evs     []Name
+		sub     Subscription
+		subAt   int // subscribes before publish number subAt
+		unsubAt int // unsubscribes before publish number unsubAt; npub+1 = never
 	}
 	specs := make([]*subSpec, nsub)
 	for i := range specs {
 		s := &subSpec{}
-		var evs []Name
-		for k := range bNames {
+		for k := 0; k < nnames; k++ {
 			if vChoose("sub-named", 2) == 1 {
 				s.named[k] = true
-				evs = append(evs, bNames[k])
+				s.evs = append(s.evs, bNames[k])
 			}
 		}
 		if vChoose("sub-wild", 2) == 1 {
 			s.wild = true
 			// the wildcard may be listed before or after the named events
 			if vChoose("wild-first", 2) == 1 {
-				evs = append([]Name{WildCardName}, evs...)
+				s.evs = append([]Name{WildCardName}, s.evs...)
 			} else {
-				evs = append(evs, WildCardName)
+				s.evs = append(s.evs, WildCardName)
 			}
 		}
-		sub, err := b.Subscribe(evs...)
-		vAssert(err == nil, "subscribe-no-error")
-		s.sub = sub
-		s.unsubAt = vChoose("unsub-at", npub+2)
+		s.subAt = vChoose("sub-at", npub+1)
+		s.unsubAt = s.subAt + 1 + vChoose("unsub-after", npub+1-s.subAt)
 		specs[i] = s
 	}
 	var published []int // index into bNames per message; message id = position
@@ -62,10 +62,17 @@ func VerifH_C20_Bus() {
 				b.Unsubscribe(s.sub)
 			}
 		}
+		for _, s := range specs {
+			if s.subAt == p {
+				sub, err := b.Subscribe(s.evs...)
+				vAssert(err == nil, "subscribe-no-error")
+				s.sub = sub
+			}
+		}
 		if p == npub {
 			break
 		}
-		k := vChoose("pub-name", len(bNames))
+		k := vChoose("pub-name", nnames)
 		published = append(published, k)
 		b.Publish(NewMessage(bNames[k], p))
 	}
@@ -75,14 +82,20 @@ func VerifH_C20_Bus() {
 	for _, s := range specs {
 		var want []int
 		for p, k := range published {
-			if p < s.unsubAt && (s.wild || s.named[k]) {
+			if p >= s.subAt && p < s.unsubAt && (s.wild || s.named[k]) {
 				want = append(want, p)
 			}
 		}
 		ch := s.sub.Message()
 		got := 0
 		for {
-			m, ok := <-ch
+			// non-blocking drain: a queue that was never closed must not hang the check
+			var m Message
+			ok := false
+			select {
+			case m, ok = <-ch:
+			default:
+			}
 			if !ok {
 				break
 			}
@@ -110,7 +123,11 @@ func VerifH_C20_BusReach() {
 	b.Publish(NewMessage(UpdateName, 1))
 	b.commandChannel <- closeCommand{}
 	b.handleChannel()
-	_, ok := <-sub.Message()
+	ok := false
+	select {
+	case _, ok = <-sub.Message():
+	default:
+	}
 	vCover("end")
 	vAssert(!ok, "reach-twin")
 }
